@@ -9,7 +9,7 @@ import glob, json, os
 from .common import c18env
 
 PROPERTY = "C18"
-LEAN_MODULES = ["AioProps.C18"]
+LEAN_MODULES = ["AioProps.C18", "AioProps.C18Ws"]
 THEOREMS = [
     "Aio.C18.ceilSec_bounds",
     "Aio.C18.totalDeadline_spec",
@@ -29,6 +29,11 @@ THEOREMS = [
     "Aio.C18.resume_delivers_cancel",
     "Aio.C18.others_unaffected_step",
     "Aio.C18.pool_cowaiter_wakeup_passed_on",
+    "Aio.C18.effWs_close_indep",
+    "Aio.C18.effWs_recv",
+    "Aio.C18.effWs_default_close",
+    "Aio.C18.ws_close_bound",
+    "Aio.C18.ws_close_unbounded",
 ]
 RULE = ("one scripted exchange of the real ClientSession/TCPConnector under virtual time: the stall phase is drawn from "
         "{pool wait, DNS, connect, send body, inside the response head (any byte position), inside the body (any byte "
@@ -43,6 +48,10 @@ RULE = ("one scripted exchange of the real ClientSession/TCPConnector under virt
         "inside the head, inside the body, exactly between two chunks, body complete but connection kept open, none} x "
         "exactly one timeout kind; upload stalled in drain() against a peer that never reads (writer task parked) x caller "
         "cancellation / total / sock_read at every later await; consumer pause/resume around the high-water mark. "
+        "https requests with a stall in the TCP connect or in the TLS handshake of each attempt; the owner of the shared lookup "
+        "cancelled / timed out with no follower and a co-request for the same host arriving in the same callback, 1-3 loop "
+        "iterations or milliseconds later, with a resolver that unwinds slowly when cancelled; gzip bodies streamed by a slow "
+        "consumer (oracle only); WebSocket close: every way of passing ws timeouts x silent/answering peer x caller cancel. "
         "Distinct by scenario content.")
 TRUSTED_BASE = [
     "asyncio: Task.cancel() is delivered at the next resumption and wins over an available result; call_at fires not "
@@ -62,7 +71,12 @@ ASSUMPTIONS = [
     "ClientResponse.read() (optionally after a sleep)",
     "the connector's shared, shielded DNS lookup task is connector-owned: it may outlive the request that started it "
     "(until the resolver answers or the connector closes) and is not counted as a background task of that request",
-    "WebSocket close stalls are not modelled here (ClientWebSocketResponse.close is covered by C13)",
+    "WebSocket: only the close handshake of the client (ws_connect timeout plumbing, close() against a silent / answering "
+    "peer, caller cancellation) is covered here; message exchange and the server side belong to C13",
+    "https is a stub: the TLS handshake is a stall point inside create_connection(sock=…, ssl=…); co-requests are plain http, "
+    "so https scenarios have no co-request",
+    "compressed slow-consumer scenarios are judged by the direct oracle only (decompression is not in the model); a co-request "
+    "that starts N loop iterations after the owner's cancellation is mapped to the same model instant",
 ]
 
 TMO_VALUES = [400, 1500, 2500, 4999, 5000, 5001, 7300]
@@ -361,6 +375,96 @@ def gen_cancel_upload(rng):
     return sc
 
 
+def gen_tls(rng):
+    """https: the connect phase has two stall points per attempt — TCP connect and TLS handshake —
+    both inside sock_connect / connect / total"""
+    kinds = ["total", "connect", "sock_connect", "sock_read"]
+    sc = {"t0": rng.choice(T0S), "holder": None, "co": None, "cancel": None}
+    for k in kinds:
+        sc[k] = None
+    m = rng.random()
+    if m < 0.6:
+        sc[rng.choice(["sock_connect", "sock_connect", "connect", "total", "sock_read"])] = rng.choice(TMO_VALUES)
+    else:
+        for k in rng.sample(kinds, 2):
+            sc[k] = rng.choice(TMO_VALUES)
+    t = sc["t0"]
+    if rng.random() < 0.5:
+        t += rng.choice(GAPS); sc["dns"] = t; sc["naddr"] = rng.choice([1, 2])
+    else:
+        sc["dns"] = None
+    na = sc.get("naddr", 1) if sc["dns"] is not None else 1
+    point = rng.choice(["tcp", "tls", "tls", "tls", "none", "none"])
+    conn, tls = [], []
+    for i in range(na):
+        last = i == na - 1
+        if point == "tcp":
+            conn.append(-1); tls.append(-1)
+        elif point == "tls":
+            t += rng.choice([7, 90, 610]); conn.append(t); tls.append(-1)
+        else:
+            t += rng.choice([7, 90, 610]); conn.append(t)
+            t += rng.choice([7, 90, 610, 3100]); tls.append(t)
+            break
+    sc["conn"], sc["tls"] = conn, tls
+    sc["stall"] = {"tcp": "connect", "tls": "tls", "none": "none"}[point]
+    wire, headlen, payload = build_response(rng, "cl", rng.choice([1, 10]))
+    cuts = sorted(set(rng.randrange(1, len(wire)) for _ in range(rng.choice([0, 1]))))
+    resp = []
+    for p in pieces_of(wire, headlen, payload, cuts):
+        t += rng.choice([7, 90, 610])
+        resp.append([t, p["hex"], p["n"], p["hd"], p["bb"], p["eof"]])
+    sc["resp"] = resp
+    if rng.random() < 0.25:
+        times = [x for x in conn + tls if x >= 0] + [sc["t0"] + rng.choice(TMO_VALUES), t + 50]
+        c = rng.choice(times) + rng.choice([0, 0, 1, -1])
+        sc["cancel"] = max(c, sc["t0"] + 1)
+    return sc
+
+
+def gen_dns_after(rng):
+    """R owns the shared lookup with no follower and is cancelled / times out while the resolver
+    stalls; the co-request for the same host starts after that — in the same callback, 1-3 loop
+    iterations later, or milliseconds later — and must be decided by its own timeline only"""
+    kinds = ["total", "connect", "sock_connect", "sock_read"]
+    sc = {"t0": rng.choice(T0S), "holder": None, "stall": "dns", "naddr": 1, "co": "dnsafter"}
+    for k in kinds:
+        sc[k] = None
+    how = rng.choice(["cancel", "cancel", "total", "connect"])
+    if how == "cancel":
+        end = sc["t0"] + rng.choice([1, 90, 610, 2500])
+        sc["cancel"] = end
+    else:
+        sc[how] = rng.choice([400, 1500, 2500])
+        end = sc["t0"] + sc[how]
+        sc["cancel"] = None
+    sc["c_at"] = end + rng.choice([0, 0, 0, 1, 7, 90])
+    sc["c_late"] = rng.choice([0, 0, 1, 1, 2, 3])
+    sc["dns_unwind"] = rng.choice([0, 0, 50, 500])
+    sc["dns"] = rng.choice([-1, sc["c_at"] + rng.choice([610, 3100])])
+    t = (sc["dns"] if sc["dns"] >= 0 else sc["c_at"]) + 90
+    sc["conn"] = [t]
+    sc["resp"] = []
+    return sc
+
+
+def gen_compressed_slow(rng):
+    """(oracle only — decompression is not in the model) a gzip body that inflates far beyond the
+    high-water mark arrives completely in one segment; the consumer streams it with pauses between
+    reads; the peer is healthy, so no timeout of any kind may fire"""
+    sc = {"t0": rng.choice(T0S), "total": None, "connect": None, "sock_connect": None, "holder": None, "dns": None,
+          "co": None, "cancel": None, "stall": "none", "oracle_only": 1, "slow": 1}
+    sc["sock_read"] = rng.choice([400, 1500, 2500])
+    sc["think"] = rng.choice([100, 300, 2000, 3100])
+    sc["gz"] = rng.choice([100_000, 300_000, 1_000_000])
+    sc["bufsize"] = rng.choice([4096, 65536])
+    t = sc["t0"] + rng.choice([7, 90])
+    sc["conn"] = [t]
+    sc["gz_at"] = t + rng.choice([7, 90])
+    sc["resp"] = []
+    return sc
+
+
 def gen_framing(rng):
     """response framing {content-length, chunked, close-delimited} x stall point {before the head,
     inside the head, inside the body, between two chunks, body complete but never closed, none}
@@ -417,6 +521,11 @@ def model_line(sc):
     add(t0, 3, "R")
     if co in ("pool", "dnswait"):
         add(t0 + 1, 2, "C")
+    if co == "dnsafter":
+        add(sc["c_at"], 1001, "C")
+    for i, t in enumerate(sc.get("tls") or []):
+        if t >= 0:
+            add(t, 5, f"T{i}")
     if sc.get("dns") is not None and sc["dns"] >= 0:
         add(sc["dns"], 4, "D")
     for i, t in enumerate(sc.get("conn", [])):
@@ -437,7 +546,7 @@ def model_line(sc):
     wstall = 1 if (sc.get("body", 0) > 65536 and sc.get("wresume") is not None) else 0
     return (f"run total={o(sc['total'])} connect={o(sc['connect'])} sc={o(sc['sock_connect'])} sr={o(sc['sock_read'])} "
             f"limit1={limit1} dns={0 if sc.get('dns') is None else 1} naddr={sc.get('naddr', 1)} wstall={wstall} "
-            f"think={sc.get('think', 0)} buf={sc.get('bufsize', 65536)} cd={sc.get('cd', 0)} co={1 if co else 0} " + " ".join(toks))
+            f"think={sc.get('think', 0)} buf={sc.get('bufsize', 65536)} https={1 if sc.get('tls') is not None else 0} cd={sc.get('cd', 0)} co={1 if co else 0} " + " ".join(toks))
 
 
 def impl_line(out):
@@ -449,9 +558,17 @@ def impl_line(out):
             f"lookups={out['lookups']} dnscalls={out['dns_calls']} follow={out['follow']}")
 
 
+def gz_response(nbytes):
+    import gzip
+    body = gzip.compress(b"\0" * nbytes, mtime=0)
+    return b"HTTP/1.1 200 OK\r\nContent-Encoding: gzip\r\nContent-Length: %d\r\n\r\n" % len(body) + body
+
+
 def to_env(sc):
     e = dict(sc)
     e["resp"] = [[q[0], q[1], q[5]] for q in sc.get("resp", [])]
+    if sc.get("gz"):
+        e["resp"] = [[sc["gz_at"], gz_response(sc["gz"]).hex(), 1]]
     e["limit"] = 1 if (sc.get("holder") is not None or sc.get("co") == "pool") else 0
     return e
 
@@ -526,6 +643,8 @@ def oracle(ctx, sc, out):
         sent = None
         if tr["established"]:
             sent = tr["established"][0] if not wstall else (sc["wresume"] if (sc["wresume"] >= 0 and sc["wresume"] <= E) else None)
+        if tr["eof_at"] is not None:
+            E = min(E, tr["eof_at"])      # once the whole response has arrived the peer's silence is no stall
         starts = sorted(set([t for t in tr["delivered"] if t <= E] + ([sent] if sent is not None else []) +
                             [t for t, k in tr["pauses"] if k == "r" and t <= E]))
         pause_starts = sorted(t for t, k in tr["pauses"] if k == "p" and t <= E)
@@ -539,10 +658,10 @@ def oracle(ctx, sc, out):
             stop = min([E] + [x for x in starts if x > b] + [p for p in pause_starts if p >= b])
             best = max(best, stop - b)
         if best < sc["sock_read"]:
-            bad("false-timeout/sock_read",
+            bad("false-timeout/sock_read" + ("/compressed-slow-consumer" if sc.get("gz") else ""),
                 f"SocketTimeoutError at {end} although the peer was never silent for sock_read={sc['sock_read']} ms while the "
                 f"client was willing to read: deliveries {tr['delivered']}, request sent {sent}, client paused/resumed reading "
-                f"{tr['pauses']}, longest willing silence {best} ms")
+                f"{tr['pauses'][:12]}, longest willing silence {best} ms", phase=not sc.get("gz"))
     if r == "E_CONN_TIMEOUT" and not (sc.get("connect") or sc.get("sock_connect")):
         bad("false-timeout/connect", "ConnectionTimeoutError although neither connect nor sock_connect is configured")
     if r == "E_TIMEOUT" and not out.get("eff_total"):
@@ -563,7 +682,11 @@ def oracle(ctx, sc, out):
                 bad("residue/connection-not-closed", "the connection of a timed-out/cancelled exchange is still open")
             if out["pooled_r"] and not complete:
                 bad("residue/connection-pooled", "the connection of a timed-out/cancelled exchange went back to the pool")
-        if out["follow"] != "ok" or out["follow_other"] != "ok":
+        if sc.get("gz") and out["follow"] == "E_SOCK_TIMEOUT":
+            bad("session-unusable/stale-read-timer-on-pooled-connection",
+                "the exchange completed and its connection was pooled, yet a sock_read timer armed for it fired on the idle "
+                "connection; the next request that reuses it fails with SocketTimeoutError at once", phase=False)
+        elif out["follow"] != "ok" or out["follow_other"] != "ok":
             bad("session-unusable", f"follow-up requests: same host {out['follow']}, other host {out['follow_other']}")
     # ---- others
     c = out["c"]
@@ -572,7 +695,8 @@ def oracle(ctx, sc, out):
     if c == "pending" and r != "pending":
         could = (sc.get("co") == "pool" and sc.get("holder") is not None and sc["holder"] >= 0) or \
                 (sc.get("co") == "pool" and sc.get("holder") is None) or \
-                (sc.get("co") in ("dnsfirst", "dnswait") and sc.get("dns") is not None and sc["dns"] >= 0)
+                (sc.get("co") in ("dnsfirst", "dnswait") and sc.get("dns") is not None and sc["dns"] >= 0) or \
+                (sc.get("co") == "dnsafter" and sc.get("dns") is not None and sc["dns"] > sc["c_at"])
         if could:
             lost = sc.get("co") == "pool" and out["waiters"] >= 1 and out["acquired"] == 0
             if lost:
@@ -584,28 +708,148 @@ def oracle(ctx, sc, out):
         bad("loop-exception", f"{out['loop_excs']} exception(s) reached the loop's exception handler")
 
 
+# ------------------------------------------------------------------------------ WebSocket close
+WS_VALUES = [400, 2500, 4999, 5000, 7300]
+
+
+def gen_ws(rng):
+    """ws_connect with every way of passing the timeouts x peer silent / answering during the closing
+    handshake x caller cancellation around the close"""
+    kind = rng.choice(["default", "obj", "obj", "obj", "float"])
+    if kind == "default":
+        arg = ["default"]
+    elif kind == "float":
+        arg = ["float", rng.choice(WS_VALUES)]
+    else:
+        arg = ["obj", rng.choice([None, None, 700, 3000]), rng.choice([None] + WS_VALUES + WS_VALUES)]
+    sc = {"ws": 1, "stall": "wsclose", "arg": arg, "recv": rng.choice([None, None, 300, 6000]),
+          "close_at": rng.choice([10, 1000, 1003, 4200])}
+    bound = {"default": 10000, "float": arg[-1], "obj": arg[-1]}[kind]
+    r = rng.random()
+    sc["peer"] = -1 if r < 0.6 else sc["close_at"] + rng.choice([1, 90, 2499, 2500, 2501, 9000, 12000])
+    sc["cancel"] = None
+    if rng.random() < 0.3:
+        sc["cancel"] = sc["close_at"] + rng.choice([1, 90, (bound or 3000), (bound or 3000) - 1, (bound or 3000) + 1, 2500])
+    return sc
+
+
+def ws_model_line(sc):
+    def o(v):
+        return "-" if v is None else str(v)
+    a = sc["arg"]
+    if a[0] == "default":
+        k = "default - -"
+    elif a[0] == "float":
+        k = f"float {a[1]} -"
+    else:
+        k = f"obj {o(a[1])} {o(a[2])}"
+    peer = None if sc.get("peer", -1) < 0 else sc["peer"]
+    return f"ws {k} {o(sc.get('recv'))} {sc['close_at']} {o(peer)} {o(sc.get('cancel'))}"
+
+
+def ws_impl_line(out):
+    if "harness" in out:
+        return "harness=" + out["harness"] + " " + out.get("harness_detail", "")
+    def o(v):
+        return "none" if v is None else str(v)
+    r = out["r"]
+    if r == "closed":
+        rr = f"closed@{out['r_at']} code={int(out['code']) if out['code'] is not None else '-'}"
+    elif r == "pending":
+        rr = "pending@-1 code=-"
+    else:
+        rr = f"{r}@{out['r_at']} code=-"
+    return f"recv={o(out['eff_recv'])} close={o(out['eff_close'])} r={rr}"
+
+
+def ws_oracle(ctx, sc, out):
+    """the property on the real code: whatever way the timeouts were passed, close() against a silent
+    peer returns by the configured ws_close; afterwards nothing is left"""
+    def bad(clause, detail):
+        ctx.violation(f"C18/ws-close/{clause}", sc, detail + " | " + ws_impl_line(out) +
+                      f" acq={out.get('acquired')} open={out.get('open_r')} live={out.get('live')} follow={out.get('follow')}")
+    if "harness" in out:
+        ctx.violation("C18/harness/" + out["harness"], sc, out.get("harness_detail", ""))
+        return
+    a = sc["arg"]
+    want_close = 10000 if a[0] == "default" else a[-1]          # documented: timeout's own ws_close / the 10 s default
+    want_recv = sc["recv"] if sc.get("recv") is not None else (a[1] if a[0] == "obj" else None)
+    if out["eff_close"] != want_close:
+        bad("bound-discarded", f"effective ws_close is {out['eff_close']} ms, configured {want_close} ms "
+            f"(timeout={a}, receive_timeout={sc.get('recv')})")
+    if out["eff_recv"] != want_recv:
+        bad("receive-bound-wrong", f"effective ws_receive is {out['eff_recv']} ms, configured {want_recv} ms")
+    tc = out["close_called"]
+    r = out["r"]
+    if want_close is not None and tc >= 0:
+        b = bound(tc, want_close)
+        end = out["r_at"] if r != "pending" else None
+        if end is None or end > b:
+            bad("bound", f"ws_close={want_close} from {tc}: close() must be over by {b}, ended {end}")
+    if r.startswith("E_OTHER"):
+        bad("error-kind/" + r, "close() raised something that is not the caller's cancellation")
+    if r != "pending":
+        if out["acquired"]:
+            bad("residue/slot-not-freed", "slot still acquired after close()")
+        if out["open_r"]:
+            bad("residue/connection-not-closed", "the WebSocket's connection is still open after close()")
+        if out["live"]:
+            bad("residue/live-task", f"tasks still alive: {out['live']}")
+        if out["follow"] != "ok":
+            bad("session-unusable", f"follow-up request: {out['follow']}")
+
+
+def check_ws(ctx):
+    n = 250 if ctx.quick else 4000
+    cases = []
+    for f in sorted(glob.glob(os.path.join(os.path.dirname(os.path.dirname(os.path.abspath(__file__))), "corpus", "C18", "*.json"))):
+        with open(f) as fh:
+            c = json.load(fh)
+            if c.get("ws"):
+                cases.append(c)
+    cases += [gen_ws(ctx.rng) for _ in range(n)]
+    outs = [c18env.run_ws_scenario(sc) for sc in cases]
+    ml = ctx.model([ws_model_line(sc) for sc in cases])
+    for i, (sc, out) in enumerate(zip(cases, outs)):
+        il = ws_impl_line(out)
+        ctx.case(sc, sample=({"scenario": sc, "impl": il} if i % 100 == 0 else None))
+        ctx.hit("stall:wsclose", "ws:" + out.get("r", "?"))
+        ws_oracle(ctx, sc, out)
+        if ml is not None:
+            ctx.compare(sc, il, ml[i])
+
+
 def check(ctx):
+    check_ws(ctx)
     n = 6000 if ctx.quick else 60000
     cases = []
     for f in sorted(glob.glob(os.path.join(os.path.dirname(os.path.dirname(os.path.abspath(__file__))), "corpus", "C18", "*.json"))):
         with open(f) as fh:
-            cases.append(json.load(fh))
+            c = json.load(fh)
+            if not c.get("ws"):
+                cases.append(c)
     cases += [gen_scenario(ctx.rng) for _ in range(n)]
     cases += [gen_pool_race(ctx.rng) for _ in range(n // 10)]
     cases += [gen_pause_resume(ctx.rng) for _ in range(n // 10)]
     cases += [gen_cancel_upload(ctx.rng) for _ in range(n // 10)]
     cases += [gen_framing(ctx.rng) for _ in range(n // 5)]
+    cases += [gen_tls(ctx.rng) for _ in range(n // 8)]
+    cases += [gen_dns_after(ctx.rng) for _ in range(n // 12)]
+    cases += [gen_compressed_slow(ctx.rng) for _ in range(n // 60)]
     outs = [c18env.run_scenario(to_env(sc)) for sc in cases]
-    ml = ctx.model([model_line(sc) for sc in cases])
+    ml = ctx.model([model_line(sc) if not sc.get("oracle_only") else "run @0:R" for sc in cases])
     for i, (sc, out) in enumerate(zip(cases, outs)):
         il = impl_line(out)
         ctx.case(sc, sample=({"scenario": {k: v for k, v in sc.items() if k != "resp"}, "impl": il} if i % 400 == 0 else None))
         ctx.hit("stall:" + sc["stall"], "r:" + str(out.get("r")))
         oracle(ctx, sc, out)
-        if ml is not None:
+        if ml is not None and not sc.get("oracle_only"):
             ctx.compare(sc, il, ml[i])
 
 
 def replay(ctx, case):
+    if case.get("ws"):
+        ws_oracle(ctx, case, c18env.run_ws_scenario(case))
+        return
     out = c18env.run_scenario(to_env(case))
     oracle(ctx, case, out)
